@@ -32,6 +32,10 @@ RULE = ("merge: programs = (items per source, how each source ends) enumerated b
         "TLC x per-item readiness mode (after / with / just before the timers due at its arrival time) x done order; "
         "non-trivial = an item arrived exactly when the window closed")
 
+# small TLC jobs (tiny models, trace batches): JIT level 1 and few GC/compiler threads cut the JVM's CPU use
+# to a third on a loaded machine; large thorough models override this with the default JVM settings
+LIGHT_JVM = "-XX:TieredStopAtLevel=1 -XX:ParallelGCThreads=2 -XX:CICompilerCount=1 -Xmx3g"
+
 KF_EDGE = "obs:burst_first:item_at_window_edge"
 D_Q, M_Q = 2, 4
 
@@ -42,8 +46,10 @@ def _tlc_jobs(chk, jobs):
     def one(item):
         name, (mod, cfg, dump) = item
         wd = chk.work / ("tlc_" + name)
-        return name, tlc.run(SPECS / mod, SPECS / cfg, workdir=wd, deadlock=False, workers=4,
-                             dump=(wd / "g") if dump else None, extra=("-fp", "1"))
+        big = "thorough" in name
+        return name, tlc.run(SPECS / mod, SPECS / cfg, workdir=wd, deadlock=False, workers=(8 if big else 2),
+                             dump=(wd / "g") if dump else None, extra=("-fp", "1"),
+                             env=({"JAVA_TOOL_OPTIONS": "-Xmx8g"} if big else {}))
     with ThreadPoolExecutor(max_workers=len(jobs)) as ex:
         return dict(ex.map(one, jobs.items()))
 
@@ -370,6 +376,8 @@ def _pipeline(which, tier, seed, work):
 
 
 def run(chk):
+    import os
+    os.environ["JAVA_TOOL_OPTIONS"] = LIGHT_JVM
     import multiprocessing
     from concurrent.futures import ProcessPoolExecutor
     chk.exhaustive = True
